@@ -167,6 +167,7 @@ func TestLifecycle(t *testing.T) {
 		}
 		forceFresh := false
 		var actions map[string]func(*rapid.T)
+		forcedRemote := -1
 		actions = map[string]func(*rapid.T){
 			"bindRTCPWriter": func(t *rapid.T) {
 				if writerBound {
@@ -206,6 +207,9 @@ func TestLifecycle(t *testing.T) {
 			},
 			"bindRemote": func(t *rapid.T) {
 				r := remotes[rapid.IntRange(0, 2).Draw(t, "r")]
+				if forcedRemote >= 0 {
+					r = remotes[forcedRemote]
+				}
 				if m.Buffering {
 					r = remotes[0] // the jitter-buffer interceptor has one buffer: it serves one stream
 				}
@@ -288,6 +292,9 @@ func TestLifecycle(t *testing.T) {
 			},
 			"unbindRemote": func(t *rapid.T) {
 				r := remotes[rapid.IntRange(0, 2).Draw(t, "r")]
+				if forcedRemote >= 0 {
+					r = remotes[forcedRemote]
+				}
 				if !r.bound {
 					t.Skip("not bound")
 				}
@@ -581,6 +588,34 @@ func TestLifecycle(t *testing.T) {
 					t.Fatalf("%s: %d goroutines started by the interceptor are still running 2 s after Close returned (ops %v)\n%s", name, left-base, ops, goroutineDump())
 				}
 			},
+		}
+		// a stream bound while the RTCP writer refuses what the bind triggers (an immediate PLI, a first report), and removed again at once:
+		// whatever the interceptor meant to retry must not outlive the stream
+		actions["bindRemoteWhileWriterFailsThenUnbind"] = func(t *rapid.T) {
+			if !writerBound || closed || m.Buffering {
+				t.Skip("no writer / closed / single-stream member")
+			}
+			idx := rapid.IntRange(0, 2).Draw(t, "r")
+			if remotes[idx].bound {
+				t.Skip("bound")
+			}
+			n := rapid.IntRange(1, 2).Draw(t, "failures")
+			trace.U(11).I(idx, n)
+			logOp("next %d RTCP writes fail", n)
+			left := int32(n) //nolint:gosec
+			rtcpSink.SetFailIf(func(kit.SentRTCP) error {
+				if atomic.AddInt32(&left, -1) >= 0 {
+					return errRTCPWriter
+				}
+
+				return nil
+			})
+			forcedRemote = idx
+			defer func() { forcedRemote = -1 }()
+			actions["bindRemote"](t)
+			if remotes[idx].bound {
+				actions["unbindRemote"](t)
+			}
 		}
 		actions["closeAgain"] = func(t *rapid.T) {
 			if !closed {
